@@ -162,7 +162,7 @@ def build_int(b: Builder):
                 d = b.new(inner_int(ty))
                 add_with_sanitizer(d, sbody, SPELLINGS[(si + vi + ti) % 4])
                 if sname in ("wadd1", "half"):
-                    d.tags = [t for t in d.tags if t != "C11"]   # not idempotent: C11 does not apply
+                    d.tags = [t if t != "C11" else "C11v" for t in d.tags]   # not idempotent: C11 applies only to values the model says are canonical
                 if vi == 1:
                     d.vals.append(int_bound("less_or_equal", ty, 50, "lit", d))
                 elif vi == 2:
@@ -423,7 +423,7 @@ def build_string(b: Builder):
             if "with" in sl:
                 body_name = sbod[(si + vi) % len(sbod)][0]
                 if body_name not in ("ident", "trimend"):
-                    d.tags = [t for t in d.tags if t != "C11"]
+                    d.tags = [t if t != "C11" else "C11v" for t in d.tags]
 
 
 # ------------------------------------------------------------------------------------------------
